@@ -1,9 +1,104 @@
 package main
 
-// Counterexample replay against the real code (go test -overlay).
+// Counterexample replay against the real code: an in-package Go test that
+// states the property-level oracle is injected with `go test -overlay` (the
+// repository is not written) and fed the solver's model through GOVC_MODEL.
 
-// tryReplay attempts to reproduce a solver model on the real code.  It
+import (
+	"bytes"
+	"context"
+	"encoding/json"
+	"fmt"
+	"os"
+	"os/exec"
+	"path/filepath"
+	"regexp"
+	"strings"
+	"time"
+)
+
+type ReplaySpec struct {
+	Match string `json:"match"` // prefix of the obligation name
+	Pkg   string `json:"pkg"`   // package directory relative to the repository
+	File  string `json:"file"`  // test file relative to /verif
+	Test  string `json:"test"`  // test function
+}
+
+var valueRe = regexp.MustCompile(`\(\s*([^\s()]+)\s+(\(- [0-9.]+\)|[^\s()]+|\(/ [0-9.]+ [0-9.]+\)|\(- \(/ [0-9.]+ [0-9.]+\)\))\s*\)`)
+
+// modelValues extracts scalar values from a (get-value ...) answer or from
+// (define-fun name () Sort value) lines of a model.
+func modelValues(out string) map[string]string {
+	vals := map[string]string{}
+	defRe := regexp.MustCompile(`\(define-fun\s+(\S+)\s+\(\)\s+(Int|Bool|Real)\s+(\(- [0-9.]+\)|[^\s()]+|\(/ [0-9.]+ [0-9.]+\))\)`)
+	flat := strings.Join(strings.Fields(out), " ")
+	for _, m := range defRe.FindAllStringSubmatch(flat, -1) {
+		vals[m[1]] = normNum(m[3])
+	}
+	return vals
+}
+
+func normNum(s string) string {
+	s = strings.TrimSpace(s)
+	if strings.HasPrefix(s, "(- ") {
+		return "-" + strings.TrimSuffix(strings.TrimPrefix(s, "(- "), ")")
+	}
+	return s
+}
+
+func runReplayTest(repo, root, scratch string, rs ReplaySpec, model map[string]string) (string, bool, error) {
+	moduleDir := repo
+	pkg := "./" + rs.Pkg
+	if strings.HasPrefix(rs.Pkg, "internal/dnsserver") {
+		moduleDir = filepath.Join(repo, "internal/dnsserver")
+		rel := strings.TrimPrefix(strings.TrimPrefix(rs.Pkg, "internal/dnsserver"), "/")
+		pkg = "./" + rel
+	}
+	ov := map[string]map[string]string{"Replace": {
+		filepath.Join(repo, rs.Pkg, "zz_govc_replay_test.go"): filepath.Join(root, rs.File),
+	}}
+	ovData, _ := json.Marshal(ov)
+	ovFile := filepath.Join(scratch, "overlay-"+sanitizeFile(rs.Test)+".json")
+	if err := os.WriteFile(ovFile, ovData, 0o644); err != nil {
+		return "", false, err
+	}
+	mj, _ := json.Marshal(model)
+	ctx, cancel := context.WithTimeout(context.Background(), 180*time.Second)
+	defer cancel()
+	cmd := exec.CommandContext(ctx, "go", "test", "-overlay", ovFile, "-vet=off", "-count=1", "-timeout", "60s", "-run", "^"+rs.Test+"$", pkg)
+	cmd.Dir = moduleDir
+	cmd.Env = append(os.Environ(), "GOFLAGS=", "GOPROXY=off", "GOSUMDB=off", "GOTOOLCHAIN=local",
+		"GOWORK="+filepath.Join(scratch, "go.work"), "GOVC_MODEL="+string(mj))
+	var buf bytes.Buffer
+	cmd.Stdout, cmd.Stderr = &buf, &buf
+	err := cmd.Run()
+	out := buf.String()
+	if err == nil {
+		return out, false, nil
+	}
+	if strings.Contains(out, "--- FAIL") || strings.Contains(out, "panic:") {
+		return out, true, nil
+	}
+	return out, false, fmt.Errorf("replay could not be built or run: %v", err)
+}
+
+// tryReplay attempts to reproduce a failed obligation on the real code.  It
 // returns the replay output and whether the failure was confirmed.
 func tryReplay(p *Prog, cfg *PropConfig, r *SolveResult, root, repo, scratch string) (string, bool) {
+	for _, rs := range cfg.Replays {
+		if !strings.HasPrefix(r.Obl.Name, rs.Match) {
+			continue
+		}
+		model := modelValues(r.Output)
+		out, failed, err := runReplayTest(repo, root, scratch, rs, model)
+		hdr := fmt.Sprintf("replay test %s (%s, package %s), model passed through GOVC_MODEL\n", rs.Test, rs.File, rs.Pkg)
+		if err != nil {
+			return hdr + "replay error: " + err.Error() + "\n" + truncate(out, 3000), false
+		}
+		if failed {
+			return hdr + "the property-level oracle FAILS on the real code with this input:\n" + truncate(out, 4000), true
+		}
+		return hdr + "the oracle passes on the real code with this input (model not reproduced)\n" + truncate(out, 1000), false
+	}
 	return "", false
 }
